@@ -32,6 +32,7 @@ THEOREMS = [
     "KrroodVerif.Dom.C03_cex_interleaved",
     "KrroodVerif.Dom.C03_cex_runtime_error",
     "KrroodVerif.Dom.C03_sequential_decidable_nonvacuous",
+    "KrroodVerif.RuleHist.C03_rules_sequential",
     "KrroodVerif.RuleHist.C03_rules_interleaved",
     "KrroodVerif.RuleHist.C03_cex_rule_abandoned",
     "KrroodVerif.RuleHist.C03_cex_rule_suspended",
@@ -491,8 +492,9 @@ def _run_rhist(line: str) -> str:
             out.append("-")
         elif o[0] == "abandon":
             it = its.pop(o[1], None)
-            if it is not None:
+            if it is not None and hasattr(it, "close"):
                 it.close()
+            del it  # (an iterator without close() is abandoned by dropping it)
             out.append("-")
         elif o[0] == "full":
             fr = fresh_rows()
